@@ -40,7 +40,7 @@ pub fn wrap_strategy() -> BoxedStrategy<Wrap> {
 
 fn strategy(tier: Tier) -> BoxedStrategy<Case> {
     let g = TaskGen {
-        arr: ArrGen { tmax: tier.pick(60, 150), never: false, plateau_end: true, plain_curves: true, derived: false, acp: false, loose: false, depth: 1 },
+        arr: ArrGen { tmax: tier.pick(60, 150), never: true, plateau_end: true, plain_curves: true, derived: true, acp: false, loose: true, poisson: false, depth: 1 },
         cmax: 9,
         nmax: 4,
         dfac: 3,
@@ -235,6 +235,25 @@ fn check(c: &Case) -> CheckResult {
     Ok(out)
 }
 
+pub fn decode(d: &mut crate::dec::Dec) -> Case {
+    use crate::dec::*;
+    let g = DecArr { tmax: 60, never: true, derived: true, acp: false };
+    let tasks = dec_tasks(d, g, 4, 9);
+    let tua = d.pick(tasks.len());
+    let analysis = ALL_ANALYSES[d.pick(9)];
+    let blocking = d.range(0, 11);
+    let limit = match d.pick(6) {
+        0 => LimitMode::Huge,
+        1 => LimitMode::AtL,
+        2 => LimitMode::BelowL,
+        3 => LimitMode::AtMaxAf,
+        4 => LimitMode::BelowMaxAf,
+        _ => LimitMode::Absolute(d.range(1, 400)),
+    };
+    let wrap = [Wrap::Plain, Wrap::Boxed, Wrap::Refs][d.pick(3)];
+    Case { tasks, tua, analysis, blocking, limit, wrap }
+}
+
 pub fn def() -> PropertyDef {
     PropertyDef {
         id: "C06",
@@ -244,7 +263,7 @@ pub fn def() -> PropertyDef {
             "last segment <= WCET, segments >= 1".into(),
             "RBFs are black boxes here (steps/values are C10/C11/C16's business); direct ArrivalCurvePrefix models are excluded (known finding C11/acp-steps-leading-zero)".into(),
         ],
-        subchecks: vec![subcheck("equations", (1500, 60_000), strategy, check)],
+        subchecks: vec![subcheck("equations", (1500, 60_000), strategy, check).with_decoder(decode, check)],
         extra: None,
     }
 }
